@@ -34,6 +34,7 @@ def gen_policy(rng, n_threads, est_steps):
             "kind": "sites",
             "p": rng.choice([0.0, 0.005, 0.02]),
             "p_site": rng.choice([0.3, 0.6, 0.9]),
+            "window": rng.choice([1, 1, 2, 3]),
         }
     depth = rng.choice([1, 2, 3])
     return {
@@ -54,7 +55,8 @@ def make_policy(desc, rng):
         return sched.Policy("uniform", rng, p=desc["p"])
     if kind == "sites":
         return sched.Policy(
-            "sites", rng, p=desc["p"], p_site=desc["p_site"], sites=sites()
+            "sites", rng, p=desc["p"], p_site=desc["p_site"], sites=sites(),
+            window=desc.get("window", 3),
         )
     if kind == "burst":
         return sched.Policy(
